@@ -1,7 +1,8 @@
 (** C14 — sessions overlay their own writes on committed facts. *)
 From Coq Require Import String.
 From Aranya Require Import base.Tactics base.ListLex base.SortedAssoc model.Facts model.Session
-     proofs.FactsMaps proofs.FactsIndex proofs.SessionMerge proofs.SessionProofs gen.GenFacts.
+     model.FactsWorld proofs.FactsMaps proofs.FactsIndex proofs.FactsWorldProofs proofs.SessionMerge proofs.SessionProofs
+     gen.GenFacts.
 Open Scope list_scope.
 
 (** [Session::action] and [Session::receive] take the client state by shared reference
@@ -135,6 +136,32 @@ Section WithDepth.
     - intros ops. rewrite <- Hl. apply script_sees_overlay; auto.
   Qed.
 End WithDepth.
+
+(** C12 and C14 composed: the hypotheses of [session_overlay] hold of every store the
+    storage model can reach, with the fact index of any written segment as the
+    committed fact cache. *)
+Definition session_on_reachable_store_stmt : Prop :=
+  forall (maxd : N), (2 <= maxd)%N ->
+  forall (ops : list op), ops_ok sworld0 ops ->
+  forall s sg, nth_error (w_segs (mrun maxd ops)) s = Some sg ->
+  exists ss, nth_error (sw_segs (srun ops)) s = Some ss /\
+    forall cs : list (list sop * bool),
+    let st := w_store (mrun maxd ops) in
+    exists sess, run_calls st (s_new (sg_facts sg)) cs = Ok sess /\
+                 session_answers st sess (fupds (sseg_head ss) (committed_writes cs)).
+
+Lemma session_on_reachable_store_proof : session_on_reachable_store_stmt.
+Proof.
+  intros maxd Hm ops Hok s sg Hs.
+  pose proof (run_wrel maxd Hm ops Hok) as Hw.
+  pose proof (F2_nth _ _ _ (wr_segs maxd _ _ Hw) s) as G. rewrite Hs in G.
+  destruct (nth_error (sw_segs (srun ops)) s) as [ss|]; [|tauto].
+  exists ss. split; auto. intros cs st.
+  destruct G as (_ & _ & _ & _ & Hd).
+  destruct (session_overlay_proof maxd st (sg_facts sg) (sseg_head ss) cs (wr_wf maxd _ _ Hw) Hd)
+    as (sess & Hr & Ha & _).
+  exists sess; auto.
+Qed.
 
 (** The two-iterator merge, for all sorted inputs: the result is sorted and, key by key,
     the current entry wins (a tombstone hides the prior fact), otherwise the prior fact
